@@ -57,30 +57,66 @@ class ClangError(Exception):
     pass
 
 
+# AST dumps are memoised in the process and cached on disk. The disk key covers the clang command line and the
+# (path, mtime, size) of the TU and of every file it includes (one `clang -M` per TU per process), so any edit of the
+# working tree re-runs clang. VF_NO_AST_CACHE=1 turns the disk cache off.
+CACHE_DIR = os.environ.get("VF_AST_CACHE")  # disk cache is opt-in (development only); registered checks always run clang
+_mem = {}
+_deps = {}
+
+
+def deps_key(tu, cc, extra_flags=()):
+    if os.environ.get("VF_NO_AST_CACHE") or not CACHE_DIR:
+        return None
+    k = (tu, tuple(extra_flags))
+    if k not in _deps:
+        p = subprocess.run([cc] + tu_flags(tu) + list(extra_flags) + ["-M", "-Wno-everything", os.path.join(REPO, tu)],
+                           capture_output=True, text=True)
+        if p.returncode != 0:
+            _deps[k] = None
+        else:
+            files = [f for f in p.stdout.replace("\\\n", " ").split()[1:] if f != "\\"]
+            h = hashlib.sha1()
+            for f in sorted(set(files)):
+                try:
+                    st = os.stat(f)
+                    h.update(("%s:%d:%d;" % (os.path.abspath(f), st.st_mtime_ns, st.st_size)).encode())
+                except OSError:
+                    h.update(("%s:missing;" % f).encode())
+            _deps[k] = h.hexdigest()
+    return _deps[k]
+
+
 def query(tu, name, extra_flags=()):
     """Return list of top-level decl nodes whose qualified name matches `name` (clang's substring filter)."""
     cc = "clang" if tu.endswith(".c") else "clang++"
     cmd = [cc] + tu_flags(tu) + list(extra_flags) + ["-fsyntax-only", "-Wno-everything", "-Xclang", "-ast-dump=json",
                                                      "-Xclang", "-ast-dump-filter=" + name, os.path.join(REPO, tu)]
-    # development aid, OFF by default: VF_AST_CACHE=<dir> reuses clang's output for the same command line while the
-    # TU file itself is unchanged (header edits are NOT seen: never set it for a real check)
-    cdir, cfile = os.environ.get("VF_AST_CACHE"), None
-    if cdir:
-        st = os.stat(os.path.join(REPO, tu))
-        key = hashlib.sha1(("\0".join(cmd) + "\0%d\0%d" % (st.st_mtime_ns, st.st_size)).encode()).hexdigest()
-        cfile = os.path.join(cdir, key + ".json")
-    if cfile and os.path.exists(cfile):
-        s = open(cfile).read()
-    else:
+    mkey = (tu, name, tuple(extra_flags))
+    if mkey in _mem:
+        return _mem[mkey]
+    s = None
+    cfile = None
+    dk = deps_key(tu, cc, extra_flags)
+    if dk is not None:
+        cfile = os.path.join(CACHE_DIR, hashlib.sha1((dk + "|" + " ".join(cmd)).encode()).hexdigest() + ".json")
+        if os.path.exists(cfile):
+            with open(cfile) as f:
+                s = f.read()
+    if s is None:
         p = subprocess.run(cmd, capture_output=True, text=True)
         if p.returncode != 0:
             raise ClangError("clang failed on %s: %s" % (tu, p.stderr[-2000:]))
         s = p.stdout
-        if cfile:
-            os.makedirs(cdir, exist_ok=True)
-            with open(cfile + ".tmp%d" % os.getpid(), "w") as f:
-                f.write(s)
-            os.replace(cfile + ".tmp%d" % os.getpid(), cfile)
+        if cfile is not None:
+            try:
+                os.makedirs(CACHE_DIR, exist_ok=True)
+                tmp = cfile + ".%d.tmp" % os.getpid()
+                with open(tmp, "w") as f:
+                    f.write(s)
+                os.replace(tmp, cfile)
+            except OSError:
+                pass
     dec = json.JSONDecoder()
     i, objs = 0, []
     n = len(s)
@@ -92,6 +128,7 @@ def query(tu, name, extra_flags=()):
         o, j = dec.raw_decode(s, i)
         objs.append(o)
         i = j
+    _mem[mkey] = objs
     return objs
 
 
